@@ -40,7 +40,7 @@ DAY = 86400
 
 
 # appended to RULE in the evidence (vlib/runner.py)
-RULE_ADDENDUM = 'Added in rounds 4-5: once-only clock-time controls (also exactly on the start clock time), daily sim-time controls, several simple controls on different targets at one off-grid instant (EPANET cross-check skipped for API-only controls).'
+RULE_ADDENDUM = 'Added in rounds 4-5: once-only clock-time controls (also exactly on the start clock time), daily sim-time controls, several simple controls on different targets at one off-grid instant (EPANET cross-check skipped for API-only controls). Round 6: 30 % of the schedules are run in two legs (new simulator, no reset) with the pause right before a rule instant.'
 
 def n_cases(tier):
     return 300 if tier == 'quick' else 20000
